@@ -25,6 +25,7 @@ func init() {
 		NotCovered: "layout (spacing/line breaks), command-style calls, comprehension/lambda bodies, and whether the parser's own precedence table matches the printer's assumption (C14 covers the table).",
 		Run:        runC22,
 		Controls: []Control{
+			{Name: "errwrap-default-ignores-context", File: f, Old: "\t\tif x.Default != nil && token.UnaryPrec < prec1 {", New: "\t\tif x.Default != nil && token.UnaryPrec < 0 {", Expect: "own-precedence/ErrWrapExpr"},
 			{Name: "errwrap-lowest", File: f, Old: "p.expr1(x.X, token.HighestPrec, depth)\n\t\tp.print(x.Tok)", New: "p.expr(x.X)\n\t\tp.print(x.Tok)", Expect: "operand-prec/ErrWrapExpr.X"},
 			{Name: "star-lowest", File: f, Old: "\t\t\t// no parenthesis needed\n\t\t\tp.print(token.MUL)\n\t\t\tp.expr1(x.X, prec, depth)", New: "\t\t\t// no parenthesis needed\n\t\t\tp.print(token.MUL)\n\t\t\tp.expr(x.X)", Expect: "operand-prec/StarExpr.X"},
 			{Name: "index-operand-unary", File: f, Old: "\t\tp.expr1(x.X, token.HighestPrec, 1)\n\t\tp.print(x.Lbrack, token.LBRACK)\n\t\tp.expr0(x.Index, depth+1)", New: "\t\tp.expr1(x.X, token.UnaryPrec, 1)\n\t\tp.print(x.Lbrack, token.LBRACK)\n\t\tp.expr0(x.Index, depth+1)", Expect: "operand-prec/IndexExpr.X"},
@@ -64,6 +65,7 @@ func runC22(c *core.Check) {
 	}
 
 	adjacencyRule(c, prog)
+	c22OwnPrecedence(c, pk)
 }
 
 // adjacencyRule (shared by C19 and C22): printer.mayCombine contains every entry of go/printer's table.
@@ -352,4 +354,59 @@ func precedenceRules(c *core.Check, prog *core.Prog) bool {
 	}
 
 	return true
+}
+
+// c22OwnPrecedence: a node kind whose printed form starts or ends with an operand below primary precedence (-x, *p,
+// a op b, a?:b) must look at the precedence its context requires (expr1's prec1) and parenthesise itself when it is
+// weaker; a case that never consults prec1 prints `(a?:b).x` as `a?:b.x`. Also: a trailing `?` directly followed by a
+// `:` (slice bound, map key, case expression) reads as `?:` — the printer has no provision for it (known finding).
+func c22OwnPrecedence(c *core.Check, pk *packages.Package) {
+	info := pk.TypesInfo
+	fd := core.FindFuncDecl(pk, "printer.expr1")
+	if fd == nil {
+		c.Bad("anchor", "printer.expr1", 0, "not found")
+		return
+	}
+	prec1 := paramObj(fd, info, 1)
+	ts := typeSwitchOn(fd.Body, info, paramObj(fd, info, 0))
+	if ts == nil || prec1 == nil {
+		c.Undecided("own-precedence", "expr1", fd.Pos(), "no type switch over the expression / no prec1 parameter")
+		return
+	}
+	want := map[string]bool{"UnaryExpr": true, "StarExpr": true, "BinaryExpr": true, "ErrWrapExpr": true}
+	for _, s := range ts.Body.List {
+		cc := s.(*ast.CaseClause)
+		if len(cc.List) != 1 {
+			continue
+		}
+		nt := namedOf(info.TypeOf(cc.List[0]))
+		if nt == nil || !want[nt.Obj().Name()] {
+			continue
+		}
+		uses := false
+		ast.Inspect(cc, func(n ast.Node) bool {
+			if id, ok := n.(*ast.Ident); ok && info.Uses[id] == prec1 {
+				uses = true
+			}
+			return true
+		})
+		delete(want, nt.Obj().Name())
+		c.Decide(uses, "own-precedence", nt.Obj().Name(), cc.Pos(), "the case compares its own precedence with the one its context requires", "printer.expr1's case for *ast."+nt.Obj().Name()+" never looks at prec1, the precedence its context requires: as the operand of a selector, index, call or postfix operator the expression is printed without the parentheses it needs and parses back as a different tree")
+	}
+	for k := range want {
+		c.Bad("own-precedence", k, fd.Pos(), "no case for this node kind in printer.expr1")
+	}
+	c.Floor("own-precedence", 4)
+	// `a?` followed by `:`
+	handles := false
+	for _, f := range core.AllFuncDecls(pk) {
+		if f.Body == nil {
+			continue
+		}
+		txt := nows(nodeTextAll(f.Body))
+		if strings.Contains(txt, "token.QUESTION") && strings.Contains(txt, ".Default==nil") && strings.Contains(txt, "*ast.ErrWrapExpr") {
+			handles = true
+		}
+	}
+	c.Decide(handles, "question-before-colon", "printer", fd.Pos(), "some routine of the printer recognises an expression ending in a bare `?`", "nothing in package printer recognises an expression that ends in a bare `?` (an *ast.ErrWrapExpr with Tok QUESTION and no Default): where such an expression is followed by a `:` — a slice bound s[a?:b], a map key {a?: b}, a case expression — the two tokens read as the `?:` operator and the tree changes")
 }
